@@ -719,6 +719,37 @@ def search(res, tier, boost=False):
                                   dict(desc, driver=o, matrix=[[float(v).hex() for v in r] for r in A2]))
                     break
 
+    # the worker-pool path on machines with few cores (mp.cpu_count() = 2, 3): the columns are handed out in chunks of
+    # M // (16 cpu) + 1 - matrix sizes on both sides of that threshold and with a partial last chunk; the matrix of the pool
+    # path is an assembled matrix as well and is decided like the serial one
+    import multiprocessing as _mp
+    pool_c = [k for k in kept if 33 <= len(k[6]) <= 100 and k[8] and max(aspect(e) for e in k[6]) <= 1e8]
+    pool_c.sort(key=lambda k: (len(k[6]) % 2 == 0, len(k[6])))          # odd sizes first: a partial last chunk for cpu = 2
+    for curve, family, hist, gamma, mesh, SL, elems, A, inq in pool_c[:(2 if tier == 'quick' else 6)]:
+        n = len(elems)
+        for cpu in ((2,) if tier == 'quick' else (2, 3)):
+            old_cc = _mp.cpu_count
+            _mp.cpu_count = lambda cpu=cpu: cpu
+            try:
+                with quiet():
+                    A3 = np.array(SL.bilform_matrix(elems, elems, use_mp=True), dtype=float)
+            except Exception as exc:  # noqa: BLE001
+                res.violation('C13:pool-path-raises:%s:%s' % (curve, family), dict(curve=curve, family=family, history=hist, cpu_count=cpu, error=repr(exc)))
+                break
+            finally:
+                _mp.cpu_count = old_cc
+            res.count(('pool-few-cores', curve, family, cpu, n, repr(hist)), True)
+            lam3 = lam_min_scaled(A3)
+            if lam3 < 0.01 - 1e-9:
+                o = run_driver([pd_line(A3)])[0] if n <= 110 else 'undecided'
+                if o.startswith('notpd') or o == 'undecided':
+                    res.violation('C13:not-positive-definite:%s:%s:pool-path' % (curve, family),
+                                  dict(curve=curve, family=family, history=hist, n=n, cpu_count=cpu, chunk=n // (16 * cpu) + 1,
+                                       lambda_min_eigvalsh=lam3, lambda_min_serial=lam_min_scaled(A), driver=o,
+                                       zero_columns=[int(j) for j in range(n) if not A3[:, j].any()][:8],
+                                       matrix=[[float(v).hex() for v in r] for r in A3]))
+                    break
+
     # h-h/2: the fine matrix assembled by the estimator itself (captured), certified; the value is real and >= 0
     small = [k for k in kept if 3 <= len(k[6]) <= (10 if tier == 'quick' else 18)]
     rng.shuffle(small)
